@@ -344,6 +344,17 @@ func run(r *eng.Runner) {
 		return !r.Stopped()
 	})
 
+	// verbatim bodies made of delimiter characters only
+	vb := []string{"{", "}", "%", "#", "-", " ", "a", "\n"}
+	r.Group("verbatim-bodies", "c06.seq", fmt.Sprintf("every string of <=4 symbols over %d delimiter characters as the whole body of a verbatim block: alone, between texts, and as the two halves around a variable", len(vb)))
+	enum.Strings(vb, 4, func(body string, _ []int) bool {
+		v := eng.Q("{% verbatim %}" + body + "{% endverbatim %}")
+		r.Do(&SeqCase{Srcs: []eng.Q{v}, Outs: []eng.Q{eng.Q(body)}, Kinds: []string{"verbatim"}})
+		r.Do(&SeqCase{Srcs: []eng.Q{"x", v, "y"}, Outs: []eng.Q{"x", eng.Q(body), "y"}, Kinds: []string{"text", "verbatim", "text"}})
+		r.Do(&SeqCase{Srcs: []eng.Q{v, " {{ 1 }} ", v}, Outs: []eng.Q{eng.Q(body), " 1 ", eng.Q(body)}, Kinds: []string{"verbatim", "var", "verbatim"}})
+		return !r.Stopped()
+	})
+
 	// every templatetag argument, alone and surrounded by text and a second templatetag
 	r.Group("templatetag", "c06.seq", "all 8 templatetag arguments x 3 contexts")
 	var names []string
